@@ -209,6 +209,27 @@ theorem reopen_sees_final (h : H) (s : Store) (inv : RwInv h s) (fmt : Nat) (ch 
       (absOf h' s').frames = (absOf h s).frames :=
   reopen_effect h s inv cfg hsr hguard ix pos
 
+/-- … and what it then delivers: a frames call for the whole file returns every frame, and the buffer is the decoding
+    of exactly the final stored frames (so, for lossless samples, the values written: `write_then_read`'s codec step) -/
+theorem reopen_reads_final (h : H) (s : Store) (inv : RwInv h s) (fmt : Nat) (ch sr : Int) (cfg : CfgOf fmt ch sr h)
+    (hsr : sr ≤ 0x7FFFFFFF) (hguard : h.container = .wav → h.frames * (h.bw : Int) < 0xFFFFFFFF) (hF : 0 < h.frames)
+    (ix pos : Nat) (ty : Ty) :
+    ∃ h' s', openHandle ix ⟨(closeHandle h s).bytes, pos⟩ .r fmt ch sr = .ok h' s' ∧ h'.frames = h.frames ∧
+      (stepRead h' s' ty true h.frames).2.2.ret = h.frames ∧ (stepRead h' s' ty true h.frames).2.2.err = 0 ∧
+      (stepRead h' s' ty true h.frames).2.2.data = h'.enc.decodeAll h'.conv ty (absOf h s).frames.flatten :=
+  reopen_read_all h s inv cfg hsr hguard hF ix pos ty
+
+/-- the "pre-populated file" of the statement: close, then open SFM_RDWR again — the open succeeds, the new handle
+    satisfies the invariant (so every theorem above applies to the second session), it stands for the final frames
+    with the read position at 0 and the write position at the end.  WAV: when no pad byte follows the data (`NoPad`). -/
+theorem reopen_rdwr_continues (h : H) (s : Store) (inv : RwInv h s) (fmt : Nat) (ch sr : Int) (cfg : CfgOf fmt ch sr h)
+    (hsr : sr ≤ 0x7FFFFFFF) (hguard : h.container = .wav → h.frames * (h.bw : Int) < 0xFFFFFFFF) (hnp : NoPad h)
+    (ix pos : Nat) :
+    ∃ h' s', openHandle ix ⟨(closeHandle h s).bytes, pos⟩ .rw fmt ch sr = .ok h' s' ∧ RwInv h' s' ∧
+      absOf h' s' = { frames := (absOf h s).frames, rpos := 0, wpos := (absOf h s).frames.length } ∧
+      h'.frames = h.frames ∧ h'.ch = h.ch ∧ h'.enc = h.enc :=
+  reopen_rw_effect h s inv cfg hsr hguard hnp ix pos
+
 /-- the whole history of the statement: create a file SFM_RDWR (RAW, AU or WAV), run ANY sequence of calls, close,
     open read-only: the frames seen are those of the abstract run from the empty file -/
 theorem rdwr_session (ix : Nat) (s0 : Store) (fmt : Nat) (ch sr : Int) (h : H) (s : Store) (b : Bool)
@@ -304,9 +325,9 @@ theorem partial_frame_hole_not_zero :
     (runR pH pS [.seek .set .wr 3, .write .s16 true [7]]).2.bytes = [0x55, 0x66, 0x77, 0, 0, 0, 7, 0] := by decide
 
 /-- what holds: `RwInv_initial_tight` (and its instances `RwInv_initial_new`, `RwInv_initial_raw`).  NOT covered, and
-    not claimed: a pre-populated WAV whose odd-length data chunk is followed by the pad byte (`dataend ≠ 0`), a WAV
-    float file carrying a PEAK chunk (`peak ≠ none`), and — for AU / WAV — the proof that the RDWR open of a file the
-    library wrote returns a tight handle (the read-only open of such a file is `reopen_sees_final`). -/
+    not claimed: a pre-populated WAV whose odd-length data chunk is followed by the pad byte (`dataend ≠ 0`) and a WAV
+    float file carrying a PEAK chunk (`peak ≠ none`; files written in SFM_WRITE mode have one, files created in
+    SFM_RDWR mode do not).  For files an RDWR session left behind `reopen_rdwr_continues` proves tightness. -/
 theorem RwInv_initial_partial (ix : Nat) (s0 : Store) (fmt : Nat) (ch sr : Int) (h : H) (s : Store)
     (ho : openHandle ix s0 .rw fmt ch sr = .ok h s) (ht : OpenTight h s) : RwInv h s :=
   RwInv_open ix s0 fmt ch sr h s ho ht
@@ -362,5 +383,25 @@ example :
 example : CfgOf 0x040002 2 8000 eH :=
   let c := open_rw_cfg 0 {} 0x040002 2 8000 _ _ eH_opened (Or.inl rfl)
   ⟨c.cont, c.enc, c.big, c.fmtWord, c.chr, c.srr, c.hch, c.hsr⟩
+
+/-- `reopen_rdwr_continues` / `reopen_sees_final`: a new 16-bit mono WAV meets `NoPad` and `CfgOf` -/
+example : ∃ h s, openHandle 0 {} .rw 0x010002 1 8000 = .ok h s ∧ NoPad h ∧ CfgOf 0x010002 1 8000 h := by
+  refine ⟨_, _, rfl, by intro _; decide, open_rw_cfg 0 {} 0x010002 1 8000 _ _ rfl (Or.inl rfl)⟩
+
+/-! ### the pad byte: why `NoPad` is asked for -/
+
+def okDataend : OpenRes → Int
+  | .ok h _ => h.dataend
+  | _ => -1
+/-- one 8-bit frame written into a new mono WAV, closed -/
+def oddWav : List Byte :=
+  match openHandle 0 {} .rw 0x010005 1 8000 with
+  | .ok h s => (closeHandle (runR h s [.write .s16 true [256]]).1 (runR h s [.write .s16 true [256]]).2).bytes
+  | _ => []
+
+/-- witness: the file is 46 bytes (44 header, 1 data, 1 pad); re-opened SFM_RDWR its handle has `dataend = 45 ≠ 0`,
+    so it is not "tight" — the invariant (not the library) excludes it: the byte behind the data is the zero pad -/
+theorem odd_wav_reopens_with_dataend :
+    oddWav.length = 46 ∧ okDataend (openHandle 0 ⟨oddWav, 0⟩ .rw 0 0 0) = 45 := by decide +kernel
 
 end Sf.C08Refine
